@@ -457,6 +457,9 @@ class PoolManager(RequestMethods):
             kw["headers"] = HTTPHeaderDict(kw["headers"])._prepare_for_method_change()
 
         retries = kw.get("retries")
+        if retries is None:
+            # Honour the retries configured on the PoolManager itself.
+            retries = self.connection_pool_kw.get("retries")
         if not isinstance(retries, Retry):
             retries = Retry.from_int(retries, redirect=redirect)
 
